@@ -126,6 +126,40 @@ fn observe(c: &Case, res: String, t0: u64) -> Result<Seen, String> {
     Ok(Seen { getters, geometry })
 }
 
+/// A thread that lives as long as the process: it has read the configuration under every earlier case, so whatever a
+/// thread may keep of an old configuration (a per-thread snapshot, a cached geometry) is in it when the next one is installed.
+struct Veteran {
+    tx: std::sync::Mutex<std::sync::mpsc::Sender<Box<dyn FnOnce() + Send>>>,
+}
+
+fn veteran() -> &'static Veteran {
+    static V: std::sync::OnceLock<Veteran> = std::sync::OnceLock::new();
+    V.get_or_init(|| {
+        let (tx, rx) = std::sync::mpsc::channel::<Box<dyn FnOnce() + Send>>();
+        std::thread::spawn(move || {
+            for job in rx {
+                job();
+            }
+        });
+        Veteran { tx: std::sync::Mutex::new(tx) }
+    })
+}
+
+/// run `f` on the veteran thread and wait for its answer (None if it panicked)
+fn on_veteran<T: Send + 'static>(f: impl FnOnce() -> T + Send + 'static) -> Option<T> {
+    let (rtx, rrx) = std::sync::mpsc::channel();
+    let job: Box<dyn FnOnce() + Send> = Box::new(move || {
+        let r = std::panic::catch_unwind(std::panic::AssertUnwindSafe(f)).ok();
+        let _ = rtx.send(r);
+    });
+    veteran().tx.lock().unwrap().send(job).ok()?;
+    rrx.recv().ok().flatten()
+}
+
+fn read_getters() -> (u32, u32, u32, u32) {
+    (config::global_stat_sample_count_total(), config::global_stat_interval_ms_total(), config::metric_stat_sample_count(), config::metric_stat_interval_ms())
+}
+
 pub fn judge(c: &Case, tmp_dir: &str) -> Result<(bool, &'static str), (String, String)> {
     util::reset_all();
     let t0 = clock::new_case_epoch() + c.phase_ms;
@@ -137,6 +171,18 @@ pub fn judge(c: &Case, tmp_dir: &str) -> Result<(bool, &'static str), (String, S
         config::metric_stat_sample_count(),
         config::metric_stat_interval_ms(),
     );
+    // the veteran thread reads the configuration in effect before the new one is given (and touches a resource under it)
+    let vet_before = on_veteran(|| {
+        let g = read_getters();
+        let name = util::fresh_name("c17v0");
+        if let Ok(e) = build(Req::new(&name, 1)) {
+            e.exit();
+        }
+        g
+    });
+    if vet_before != Some(before) {
+        return Err(("configuration-differs-across-threads".into(), format!("before initialisation this thread sees {:?}, a long-lived thread {:?}", before, vet_before)));
+    }
     let r = if c.yaml {
         let text = serde_yaml::to_string(&ent).map_err(|e| ("yaml-serialize".to_string(), e.to_string()))?;
         let path = format!("{}/c17-{}-{}.yaml", tmp_dir, std::process::id(), util::fresh_name("cfg"));
@@ -176,8 +222,9 @@ pub fn judge(c: &Case, tmp_dir: &str) -> Result<(bool, &'static str), (String, S
         })
         .join()
         .map_err(|_| ("panic-on-other-thread".to_string(), "reading the configuration panicked".to_string()))?;
-        if after != before || there != before {
-            return Err(("rejected-configuration-in-effect".into(), format!("{:?} was rejected, yet the configuration in effect changed from {:?} to {:?} (other thread: {:?})", c, before, after, there)));
+        let vet = on_veteran(read_getters);
+        if after != before || there != before || vet != Some(before) {
+            return Err(("rejected-configuration-in-effect".into(), format!("{:?} was rejected, yet the configuration in effect changed from {:?} to {:?} (new thread: {:?}, long-lived thread: {:?})", c, before, after, there, vet)));
         }
         let name = util::fresh_name("c17r");
         let e = build(Req::new(&name, 1)).map_err(|m| ("entry-blocked-after-rejected-configuration".to_string(), m))?;
@@ -198,6 +245,16 @@ pub fn judge(c: &Case, tmp_dir: &str) -> Result<(bool, &'static str), (String, S
     }
     if there != here {
         return Err(("configuration-differs-across-threads".into(), format!("initialising thread {:?}, other thread {:?}", here, there)));
+    }
+    // a thread that was already running (and had read the previous configuration) when this one was installed
+    let c3 = c.clone();
+    let name = util::fresh_name("c17v");
+    let t2 = t1 + 3 * c.interval_ms_total as u64 + 1000;
+    let vet = on_veteran(move || observe(&c3, name, t2))
+        .ok_or(("panic-on-other-thread".to_string(), "a resource first touched on a long-lived thread panicked".to_string()))?
+        .map_err(|e| ("configuration-differs-across-threads".to_string(), format!("long-lived thread (running since before the initialisation): {}", e)))?;
+    if vet != here {
+        return Err(("configuration-differs-across-threads".into(), format!("initialising thread {:?}, a thread running since before the initialisation {:?}", here, vet)));
     }
     Ok((true, if want == (20, 10000, 2, 1000) { "accepted-default" } else { "accepted-non-default" }))
 }
@@ -236,7 +293,7 @@ impl Property for C17 {
         vec![("parse_yaml", 1_000_000, 600)]
     }
     fn rule(&self) -> String {
-        "grid {20,0,1,2,3,7,10} x {10000,0,1,999,1000,3000,10001} x {2,0,1,3,4} x {1000,0,1,500,1500,2000,10000} of (sample_count_total, interval_ms_total, sample_count, interval_ms): all 1715 points enumerated exhaustively as ConfigEntity (coverage.extra) and generated points given as entity or as YAML text through init_with_config_file, with a generated bucket phase; collectors, ticker and metric log disabled; oracle: accepted <=> check() accepts; must-refuse (global window cannot exist, or the default window does not tile it) / must-accept (canonical tiling) predicates from the statement; a rejected configuration leaves the configuration in effect unchanged (this thread and another) and entries still work; after acceptance a resource first touched on the initialising thread and one first touched on another thread both work (entry, exit) and show the configured geometry (config getters, node geometry accessor, and window behaviour under the virtual clock: a pass at +0 is visible in the default metric until its bucket leaves interval_ms and in a full-ring read stat until interval_ms_total); non-trivial = accepted non-default geometry, or a refused point; distinct = distinct decoded cases".into()
+        "grid {20,0,1,2,3,7,10} x {10000,0,1,999,1000,3000,10001} x {2,0,1,3,4} x {1000,0,1,500,1500,2000,10000} of (sample_count_total, interval_ms_total, sample_count, interval_ms): all 1715 points enumerated exhaustively as ConfigEntity (coverage.extra) and generated points given as entity or as YAML text through init_with_config_file, with a generated bucket phase; collectors, ticker and metric log disabled; oracle: accepted <=> check() accepts; must-refuse (global window cannot exist, or the default window does not tile it) / must-accept (canonical tiling) predicates from the statement; a rejected configuration leaves the configuration in effect unchanged (this thread, a new one, the long-lived one) and entries still work; after acceptance a resource first touched on the initialising thread, one first touched on a new thread and one first touched on a long-lived thread that had read every earlier configuration of the process all work (entry, exit) and show the configured geometry (config getters, node geometry accessor, and window behaviour under the virtual clock: a pass at +0 is visible in the default metric until its bucket leaves interval_ms and in a full-ring read stat until interval_ms_total); non-trivial = accepted non-default geometry, or a refused point; distinct = distinct decoded cases".into()
     }
     fn assumptions(&self) -> Vec<String> {
         vec![
